@@ -1,0 +1,8 @@
+//go:build !verif
+// +build !verif
+
+package index
+
+import uuid "github.com/satori/go.uuid"
+
+func verifYield(point string, id uuid.UUID) {}
